@@ -55,6 +55,10 @@ Definition defs_renamed (ws : list src_info) (c : str) : list str := map (fun it
 Definition defs_original (ws : list src_info) (c : str) : list str := map (fun it => original (item_id it)) (crate_items ws c).
 Definition defines (ws : list src_info) (c n : str) : bool := mem_str n (defs_renamed ws c).
 
+(* a definition at declaration level: its kind and the names it is defined under *)
+Definition c14_kind (it : ritem) : N := match it with ItStruct _ => 0 | ItEnum _ => 1 | ItAlias _ => 2 | ItConst _ => 3 end.
+Definition c14_decl (it : ritem) : N * id := (c14_kind it, item_id it).
+
 (* crates that get a file: those with at least one annotated item *)
 Fixpoint dedup14 (l : list str) : list str :=
   match l with [] => [] | x :: r => if mem_str x r then dedup14 r else x :: dedup14 r end.
@@ -198,6 +202,14 @@ Definition judge_crate (ws : list src_info) (mapped : list str) (c : str) (obser
 (* soundness of an observed import list: the pairs that are NOT fine *)
 Definition unsound_imports (ws : list src_info) (c : str) (observed : list (str * str)) : list (str * str) :=
   filter (fun p => str_eqb (fst p) c || negb (defines ws (fst p) (snd p))) observed.
+
+(* imports that name a CONST of their module (finding C14-glob-const: an effective glob import lists every name of
+   the crate's type table, consts included, under the generated name - TypeScript writes a const under the
+   SCREAMING_SNAKE_CASE of that name, so the module's file need not define the imported identifier) *)
+Definition is_const_of (ws : list src_info) (k n : str) : bool :=
+  existsb (fun it => match it with ItConst c => str_eqb (renamed (cid c)) n | _ => false end) (crate_items ws k).
+Definition const_imports (ws : list src_info) (observed : list (str * str)) : list (str * str) :=
+  filter (fun p => is_const_of ws (fst p) (snd p)) observed.
 
 Definition good_C14 (ws : list src_info) (mapped : list str) (c : str) (observed : list (str * str)) : bool :=
   match unsound_imports ws c observed with
